@@ -258,7 +258,7 @@ mod verif_c19 {
     // @obligation (exploratory: a single BTreeMap insertion with a symbolic key ran CBMC out of memory at 14 GB; lints are outside the claim) lint settings of a constructor: one call out of allow / warn / deny on either lint: the schema's lint table holds exactly that setting for that lint (converted by lint2lint) and no entry for the other lint
     // @bounds 1 call, 2 lints x 3 settings
     // @functions RegisteredConstructor::allow, ::warn, ::deny, conversions::lint2lint
-    // @timeout 900
+    // @timeout 600
     #[kani::proof]
     #[kani::unwind(5)]
     fn c19_constructor_lints() {
@@ -270,7 +270,7 @@ mod verif_c19 {
     // @obligation (exploratory, see c19_constructor_lints) an overriding lint call: the constructor already carries allow(Lint::Unused) (written into the schema concretely); one more call out of allow / warn / deny on either lint: a call that names Lint::Unused replaces the earlier setting (the LAST call wins), a call that names the other lint leaves it alone
     // @bounds 1 symbolic call on a lint table with one entry
     // @functions RegisteredConstructor::allow, ::warn, ::deny, conversions::lint2lint
-    // @timeout 900
+    // @timeout 600
     // @mem 24
     #[kani::proof]
     #[kani::unwind(5)]
@@ -283,7 +283,7 @@ mod verif_c19 {
     // @obligation as c19_constructor_lints with two calls: per lint the setting of the LAST call that named it (BTreeMap insertion into a non-empty map is at the edge of what CBMC finishes: exploratory)
     // @bounds 2 calls, 2 lints x 3 settings
     // @functions RegisteredConstructor::allow, ::warn, ::deny, conversions::lint2lint
-    // @timeout 2400
+    // @timeout 600
     // @mem 24
     #[kani::proof]
     #[kani::unwind(5)]
